@@ -15,9 +15,10 @@ import (
 // https://github.com/openconfig/reference/blob/master/rpc/gnmi/gnmi-path-conventions.md#wildcards-in-paths
 func MatchWildcardRegexp(query string, exact bool) *regexp.Regexp {
 	const legalChars = `a-zA-Z0-9_:,\-\.`
-	regexpQuery := strings.ReplaceAll(query, `[`, `\[`)
-	regexpQuery = strings.ReplaceAll(regexpQuery, `*`, `[`+legalChars+`]*?`) // Not greedy
-	regexpQuery = strings.ReplaceAll(regexpQuery, `...`, `.*`)               // greedy
+	// Quote the query so that no byte of a path is taken for regular expression syntax, then expand the wildcards
+	regexpQuery := regexp.QuoteMeta(query)
+	regexpQuery = strings.ReplaceAll(regexpQuery, `\*`, `[`+legalChars+`]*?`) // Not greedy
+	regexpQuery = strings.ReplaceAll(regexpQuery, `\.\.\.`, `.*`)             // greedy
 	if exact {
 		return regexp.MustCompile(fmt.Sprintf("^%s$", regexpQuery))
 	}
